@@ -332,6 +332,102 @@ Proof. unfold copy, s2, s1, y, n. destruct (style_cell (cget s x)), (skw_pending
 
 Lemma PO_copy kws : PO (copy s x kws).
 Proof. rewrite copy_unfold. apply PO_fold. apply PO_fold. apply PF_s2. Qed.
+
+(* ---- the cells of the ORIGINAL objects: nothing is added to them by a copy except the fresh
+   cells of the lazily created style of x *)
+Record PC (u : cstate) : Prop := mkPC {
+  pc_fs : fs u = fs s1;
+  pc_heap : H <= length (heap u);
+  pc_cells : forall i c, i < n -> In c (lown u i) -> In c (lown s i) \/ (i = x /\ H <= c) }.
+
+Lemma PC_s1 : PC s1.
+Proof.
+  split.
+  - reflexivity.
+  - unfold s1, deepcopy. simpl. rewrite app_length. fold H. lia.
+  - intros i c L Hc. left. unfold lown in *. rewrite junk_old in Hc by exact L.
+    destruct (is_junk (fs s) i); auto. unfold owned in *. rewrite s1_old in Hc by exact L. exact Hc.
+Qed.
+
+Lemma PC_realloc u u' k o' :
+  fs u' = fs u -> co u' = lupd (co u) k o' -> length (heap u) <= length (heap u') ->
+  (k = x \/ n <= k) ->
+  (forall c, In c (cells_of o') -> In c (owned u k) \/ length (heap u) <= c) ->
+  PC u -> PC u'.
+Proof.
+  intros Hfs Hco Hh Hk Hc [P1 P2 P3]. split.
+  - congruence.
+  - lia.
+  - intros i c L Hi. unfold lown in Hi. rewrite Hfs in Hi.
+    destruct (is_junk (fs u) i) eqn:Ej; [contradiction|].
+    unfold owned, cget in Hi. rewrite Hco, cget_lupd in Hi.
+    destruct (Nat.eqb i k && Nat.ltb k (length (co u))) eqn:E.
+    + apply andb_prop in E. destruct E as [E _]. apply Nat.eqb_eq in E. subst k.
+      destruct Hk as [->|Hk]; [|lia]. apply Hc in Hi. destruct Hi as [Hi|Hi].
+      * apply (P3 x c L). unfold lown. rewrite Ej. exact Hi.
+      * right. split; auto. lia.
+    + apply (P3 i c L). unfold lown. rewrite Ej. exact Hi.
+Qed.
+
+Lemma PC_touch u k : (k = x \/ n <= k) -> PC u -> PC (touch_style u k).
+Proof.
+  intros Hk HP. unfold touch_style.
+  destruct (style_cell (cget u k)) as [c0|] eqn:Es, (skw_pending (cget u k)) eqn:Ep; auto.
+  - eapply (PC_realloc u _ k); [reflexivity | simpl; reflexivity | | exact Hk | | exact HP]; simpl.
+    + rewrite app_length. lia.
+    + intros c Hc. apply cells_of_mk in Hc. destruct Hc as [Hc|[Hc|Hc]].
+      * left. apply owned_cases. auto.
+      * right. lia.
+      * left. apply owned_cases. inversion Hc. subst. auto.
+  - eapply (PC_realloc u _ k); [reflexivity | simpl; reflexivity | | exact Hk | | exact HP]; simpl.
+    + rewrite app_length. lia.
+    + intros c Hc. apply cells_of_mk in Hc. destruct Hc as [Hc|[Hc|Hc]].
+      * left. apply owned_cases. auto.
+      * right. lia.
+      * right. inversion Hc. lia.
+  - eapply (PC_realloc u _ k); [reflexivity | simpl; reflexivity | | exact Hk | | exact HP]; simpl.
+    + rewrite app_length. lia.
+    + intros c Hc. apply cells_of_mk in Hc. destruct Hc as [Hc|[Hc|Hc]].
+      * left. apply owned_cases. auto.
+      * left. apply owned_cases. auto.
+      * right. inversion Hc. lia.
+Qed.
+
+Lemma PC_set_label u k l : (k = x \/ n <= k) -> PC u -> PC (set_label u k l).
+Proof.
+  intros Hk HP. unfold set_label, cupd.
+  eapply (PC_realloc u _ k); [reflexivity | simpl; reflexivity | | exact Hk | | exact HP]; simpl; auto.
+Qed.
+
+Lemma PC_write u c v : PC u -> PC (write u c v).
+Proof.
+  intros [P1 P2 P3]. split; auto. unfold write. simpl. rewrite lupd_length. exact P2.
+Qed.
+
+Lemma PC_apply_kw u k : PC u -> PC (apply_kw u y k).
+Proof.
+  intros HP. assert (Hy : y = x \/ n <= y) by (right; unfold y; lia).
+  destruct k as [j v|v|l]; simpl.
+  - eapply (PC_realloc u _ y); [reflexivity | simpl; reflexivity | | exact Hy | | exact HP]; simpl.
+    + rewrite app_length. lia.
+    + intros c Hc. apply cells_of_mk in Hc. destruct Hc as [Hc|[Hc|Hc]].
+      * apply In_lupd in Hc. destruct Hc as [->|Hc]; [right; lia|]. left. apply owned_cases. auto.
+      * left. apply owned_cases. auto.
+      * left. apply owned_cases. auto.
+  - destruct (style_cell (cget (touch_style u y) y)); [apply PC_write|]; apply PC_touch; auto.
+  - apply PC_set_label; auto. apply PC_touch; auto.
+Qed.
+
+Lemma PC_fold ks : forall u, PC u -> PC (fold_left (fun s k => apply_kw s y k) ks u).
+Proof. induction ks as [|k ks IH]; intros u HP; simpl; auto. apply IH. apply PC_apply_kw. exact HP. Qed.
+
+Lemma PC_copy kws : PC (copy s x kws).
+Proof.
+  rewrite copy_unfold. apply PC_fold. apply PC_fold. unfold s2.
+  assert (Hy : y = x \/ n <= y) by (right; unfold y; lia).
+  destruct (style_cell (cget s x)), (skw_pending (cget s x)); try apply PC_s1;
+    apply PC_set_label; auto; apply PC_touch; auto; apply PC_touch; auto; apply PC_s1.
+Qed.
 End CopyThm.
 
 (* ---------------------------------------------------------------- the theorems of C18 *)
